@@ -570,6 +570,44 @@ def unknown_type_guard(ctx, rule):
         for t in walk_term(p.value) if p.value else ():
             if kind(t) == 'sub' and t[1] == table:
                 subs.add(t[2])
+        # ... or looked up with .get(): the result is the class, None (the
+        # default) stands for "unknown"
+        gets = set()
+        for ev in iter_events(p.trace):
+            for part in ev[1:]:
+                if isinstance(part, tuple):
+                    for t in walk_term(part):
+                        if kind(t) == 'call' and kind(t[2]) == 'attr' and \
+                                t[2][1] == table and t[2][2] == 'get' and \
+                                len(t[3]) == 1:
+                            gets.add(t)
+        for c, pol in p.cond:
+            for t in walk_term(c):
+                if kind(t) == 'call' and kind(t[2]) == 'attr' and \
+                        t[2][1] == table and t[2][2] == 'get' and \
+                        len(t[3]) == 1:
+                    gets.add(t)
+
+        def is_none(g, want):
+            for c, pol in p.cond:
+                if kind(c) == 'cmp' and c[2] == g and c[3] == NONE and \
+                        c[1] in ('is', 'is not'):
+                    if ((c[1] == 'is') == pol) == want:
+                        return True
+                if c == g and pol != want:
+                    return True
+            return False
+        for g in gets:
+            n += 1
+            if p.outcome == 'raise' and kind(p.value) == 'call' and \
+                    p.value[1] == 'error.MarshallingError' and \
+                    is_none(g, True):
+                raise_ok = True
+            elif p.outcome != 'raise':
+                ctx.ob(rule, fi.qualname, 'guard-dominates-index',
+                       is_none(g, False),
+                       'the message class is taken from %s without a test '
+                       'that the type is known' % term_str(g)[:60])
         for k in subs:
             n += 1
             ok = any(kind(c) == 'cmp' and c[2] == k and c[3] == table and
